@@ -53,6 +53,8 @@ struct Inner {
     quar: [Live; QUAR_CAP],
     quar_head: usize,
     quar_len: usize,
+    /// 0: no quarantine, a freed block is given back at once
+    quar_cap: usize,
     layouts: [LayoutEnt; LAYOUT_CAP],
     nlayouts: usize,
     led: Ledger,
@@ -71,6 +73,7 @@ impl Inner {
             quar: [Live { ptr: EMPTY, size: 0, align: 0 }; QUAR_CAP],
             quar_head: 0,
             quar_len: 0,
+            quar_cap: QUAR_CAP,
             layouts: [LayoutEnt { size: 0, align: 0, count: 0, base: 0 }; LAYOUT_CAP],
             nlayouts: 0,
             led: Ledger {
@@ -194,6 +197,10 @@ impl Inner {
         self.led.live_count -= 1;
         self.led.live_bytes -= e.size as u64;
         core::ptr::write_bytes(ptr, POISON, e.size);
+        if self.quar_cap == 0 {
+            self.dl.free(ptr);
+            return;
+        }
         if self.quar_len == QUAR_CAP {
             let old = self.quar[self.quar_head];
             self.quar_head = (self.quar_head + 1) % QUAR_CAP;
@@ -213,6 +220,11 @@ unsafe impl Sync for Galloc {}
 impl Galloc {
     pub const fn new() -> Self {
         Galloc(Mutex::new(Inner::new()))
+    }
+
+    /// Switch the quarantine off: freed blocks are reused at once.
+    pub fn no_quarantine(&self) {
+        self.0.lock().quar_cap = 0;
     }
 
     /// Make the current per-layout counts the baseline.
